@@ -13,7 +13,9 @@ CLAIMED = {
    text="Theorems in lean/MimicProps/C18.lean hold for every arrival/departure history of the LocalControl model (nodup, "
         "prefix = configured server id incl. 0, add succeeds iff < 2^16 live, recovery after a departure). The model is tied "
         "to the code by constants re-extracted on every run and by op-by-op comparison with the real LocalControl on random "
-        "histories (real N with wrap-arounds; small N with full registries), and id consistency is checked through a real server.",
+        "histories (real N with wrap-arounds; small N with full registries), and id consistency is checked through a real server. "
+        "CODE LEVEL: LocalControl._new_connection_id / add / remove and utils.seq are translated statement by statement on every run "
+        "(harness/pytrans2.py -> Mimic/Extracted/ControlCode.lean) and proved to refine the model for every history (code_refines_model, code_ids_unique_and_admission).",
    note=TB + "Modelled, not verified: Python dict semantics, utils.seq; random.randint for an unset server id is outside the property.",
    design="DESIGN.md section 4, C18"),
 }
@@ -25,17 +27,24 @@ CLAIMED["C04"] = dict(
         "program of write(drain?)/drain. Tie: literals, header-read method, buffer size and sequence modulus re-extracted each run; "
         "per-chunk comparison of the real MysqlStream over a real StreamReader with the model (real class and class recompiled from the "
         "current source with a small packet size); real-server conversation at every 1-cut and sampled/exhaustive 2-cuts; in-memory TLS. "
+        "CODE LEVEL: MysqlStream.write / drain / reset_seq are translated on every run (Mimic/Extracted/StreamCode.lean) and proved equal to the "
+        "model's buffered writer (write_is_code, code_write_preserves_order, code_max_packet); the header codecs are the translated uint_3 / uint_1. "
         "Partial: the TLS switch loses bytes coalesced with the SSLRequest (known finding D4b); the TLS engine itself is trusted.",
    note=TB + "Modelled, not verified: asyncio.StreamReader.readexactly / feed_data, StreamWriter; ssl. Payloads >= 16 MiB are compared by packet (seq,len) list and independent reassembly, not byte-for-byte in Lean.",
    design="DESIGN.md section 4, C04")
 
 CLAIMED["C11"] = dict(
-   technique="Lean 4 proof (list induction over fetch-size sequences; frame lemmas over the statement registry) + differential execution of prepare/execute/fetch/reset/close programs",
+   technique="Lean 4 proof (list induction over fetch-size sequences; frame lemmas over the statement registry; refinement of the handlers translated from the source on every run) + differential execution of prepare/execute/fetch/reset/close programs",
    text="Theorems in lean/MimicProps/C11.lean: a fetch returns take n / leaves drop n and is flagged last-row-sent iff it could not be filled; for every "
         "result and every sequence of fetch sizes the concatenated rows are the first sum(sizes) rows (each once, in order); commands on statement a leave "
         "statement b untouched; re-execute / reset / close discard the cursor; unknown ids yield ERR. Tie: the real connection is driven with exhaustive "
         "(N<=5 quick, N<=8 thorough) and random programs (sync/async/raising sources, failing application, fetch sizes up to 2^32-1) and compared "
-        "answer-by-answer with the model; the property oracle is evaluated on the decoded rows.",
+        "answer-by-answer with the model; the property oracle is evaluated on the decoded rows. "
+        "CODE LEVEL: the coroutine handlers handle_stmt_prepare / fetch / reset / close are translated statement by statement on every run "
+        "(harness/pytrans3.py -> Mimic/Extracted/HandlersCode.lean: effects as an event list, exceptions carrying the object state, object aliasing, "
+        "async-generator iteration with break) and proved to be the model's steps for every connection state and cursor, raising ones included "
+        "(fetch_is_code, reset_is_code, close_is_code, prepare_is_code); code_fetches_in_order states the property on the code's own bytes for every "
+        "sequence of fetch sizes; the statement-id space is the extracted _MAX_PREPARED_STMT_ID (stmt_id_space).",
    note=TB + "Rows are opaque identifiers in the model (their encoding is C05). Async-generator finalisation by the interpreter is not modelled.",
    design="DESIGN.md section 4, C11")
 CLAIMED["C12"] = dict(
@@ -82,7 +91,8 @@ CLAIMED["C15"] = dict(
         "and the two selectors read the two session variables (over a table extracted from packets.py / results.py / connection.py each run); catalogue "
         "lemmas (every collation maps to a set, default collations map back, ids unique and one byte, usable iff codec); SET NAMES and SET CHARACTER SET are "
         "atomic and exact, the handshake / COM_CHANGE_USER collation selects exactly its set or ends the connection, other assignments never touch the sets; "
-        "after every history both sets have a codec (always_usable); the set that decodes command n is a function of the commands before it. Codecs are "
+        "after every history both sets have a codec (always_usable); the set that decodes command n is a function of the commands before it. CODE LEVEL: the "
+        "translated parsers decode with the negotiated client set only (code_query_uses_only_client_charset, code_handshake_uses_announced_charset). Codecs are "
         "abstract in the proof (text_arrives_unchanged is stated over any codec with the round-trip property). Tie: extraction + a real connection: every "
         "collation id in the handshake, histories of SET NAMES / SET CHARACTER SET / variable assignments / COM_CHANGE_USER (accepted and rejected), the sets "
         "in force after each command vs the model's trace; on every probe a reference client with codecs chosen from MySQL's definition of each of the 30 "
@@ -124,6 +134,9 @@ CLAIMED["C05"] = dict(
         "duration < 2^32 days and field-wise for the text form; text-row framing for cells of any length; decimal text; type inference preserves the row "
         "sequence; inference order and encoder tables as extracted. Tie: tables re-extracted each run; real make_*_row / infer_type / _ensure_result_cols "
         "compared byte-for-byte with the model on typed random rows; independent client decoding of the real packets at unit level and end-to-end. "
+        "CODE LEVEL: the wire primitives of types.py, the temporal encoders of results.py, NullBitmap (read and write side) and make_binary_resultrow / "
+        "make_text_resultset_row are translated on every run and proved equal to the model (binary_row_is_code, text_row_is_code, code_binary_row_layout, "
+        "temporal_encoders_are_code, code_lenenc_roundtrip). Clients that offer CLIENT_OPTIONAL_RESULTSET_METADATA decode by the negotiated flags. "
         "Partial: float packing/str(float) and codecs are opaque bytes.",
    note=TB + "Modelled, not verified: struct float packing, str(float), Python codecs, datetime arithmetic of timedelta normalisation (compared differentially).",
    design="DESIGN.md section 4, C05")
@@ -137,7 +150,9 @@ CLAIMED["C06"] = dict(
         "client-encoded block (NULL bitmap, all integer widths/signedness, strings) and long data concatenates in send order; CODE LEVEL: "
         "_read_params and _read_param_value of packets.py are translated statement by statement on every run (harness/pytrans2.py -> "
         "Mimic/Extracted/ParsersCode.lean) and proved equal to the model for every input (read_params_is_code, code_params_decode_roundtrip). "
-        "Tie: translated parsers; regex source, "
+        "The COM_STMT_EXECUTE path (_encode_param_as_sql, _interpolate_params, parse_com_stmt_execute) and the handlers "
+        "handle_stmt_send_long_data / handle_stmt_reset / handle_stmt_prepare are translated too (parse_com_stmt_execute_is_code, code_literal_lexes_back, "
+        "send_long_data_is_code, reset_abandons_long_data_code, code_prepare_announces_placeholders). Tie: translated parsers and handlers; regex source, "
         "escape replacements, single-pass call shape and string type set re-extracted; real prepare/long-data/execute (incl. failing "
         "applications, repeated executions) compared with the model; tokenizer oracle on the SQL the application receives.",
    note=TB + "Modelled, not verified: Python re (only the fragment REGEX_PARAM uses is given a semantics), sqlglot's tokenizer (oracle), str(float).",
@@ -163,6 +178,8 @@ CLAIMED["C02"] = dict(
         "check accepts; no-login never accepts; OK is written iff a plugin decision vouched for the identity. Tie: the real Connection is driven over all "
         "four routes with random identity providers and responses and compared packet-by-packet with Mimic.Auth.authenticate running the executable "
         "SHA-1 (itself compared with hashlib); overlapping handshakes on shared plugin objects; reference predicate with hashlib as oracle. "
+        "CODE LEVEL: utils.xor and read_str_null are translated on every run and proved equal to the model's xorb / readNul (xor_is_code, "
+        "clear_password_decoding_is_code: the clear-password plugin hands check exactly the bytes before the first NUL, or all of them when unterminated). "
         "Partial: non-repetition of random draws (SystemRandom) is not provable.",
    note=TB + "Modelled, not verified: hashlib.sha1 (reference for the SHA-1 model), random.SystemRandom (replaced by a recording PRNG in the harness), bytes.fromhex.",
    design="DESIGN.md section 4, C02")
@@ -187,7 +204,8 @@ CLAIMED["C09"] = dict(
         "response. Known finding D9d is proved as a witness (PING -> ok, err queryKilled) and reported as KNOWN-FINDING. Tie: target programs over every "
         "command kind with pending application calls / blocked drains, one kill at EVERY event boundary, pairs and back-to-back kills, KILL on the issuing "
         "connection, compared event by event with Mimic.Conn; oracle: prefix-of-undisturbed-response + one ERR per kill, liveness after QUERY kills (PING in step), "
-        "termination and single session.close after CONNECTION kills.",
+        "termination and single session.close after CONNECTION kills. CODE LEVEL: Connection.kill is translated on every run (Mimic/Extracted/KillCode.lean) "
+        "and proved to be the machine's kill event for every state and both kinds (kill_is_code, self_kill_is_code).",
    note=TB + "Modelled, not verified: asyncio cancellation semantics (A1, A2: delivery at the parked await; request/deliver split models Task.cancel()); kill placement granularity is the harness event boundary (quiescent points), plus back-to-back requests.",
    design="DESIGN.md section 4, C09")
 
